@@ -296,7 +296,7 @@ def replay_blur(chk, case, lib, rng, trace, ranks, tmp=None):
             grids_ok = True
             for f in range(F):
                 rec = grid_record(ng, gp[f])
-                rec["ctx"] = dict(brief, frame=f, bounds_of_the_frame=bs[f], rendered=how)
+                rec["ctx"] = dict(brief, frame=f, bounds_of_the_frame=bs[f], rendered=how, full=case)
                 trace.append(rec)
                 grids_ok = grids_ok and rec["exact"] == 1 and rec["M"] == case["M"] and rec["obs"] == case["grids"][f]
             if not grids_ok:
@@ -949,11 +949,15 @@ def finding_key_for(clause):
 def settle_trace(chk, trace, rejects, tag):
     rejected = {i for i, _ in rejects}
     for i, clause in rejects:
-        chk.violation("trace:" + clause, {"record": {k: v for k, v in trace[i].items() if k not in ("obs", "prop", "file")},
-                                          "observed": trace[i].get("obs", trace[i].get("centre"))},
+        rec = {k: v for k, v in trace[i].items() if k not in ("obs", "prop", "file")}
+        full = rec.get("ctx", {}).get("full")
+        if full is not None:          # a direction-A record: the case it came from is stored for --replay
+            rec["ctx"] = {k: v for k, v in rec["ctx"].items() if k != "full"}
+        chk.violation("trace:" + clause, dict({"record": rec, "observed": trace[i].get("obs", trace[i].get("centre"))},
+                                              **({"full": full} if full is not None else {})),
                       finding_key=finding_key_for(clause))
     for i, rec in enumerate(trace):
-        if i in rejected or rec["op"] in ("sa_open", "blur"):
+        if i in rejected or rec["op"] in ("sa_open", "blur", "blur_open"):
             continue
         chk.ok((tag, rec["op"], i), sample=None)
 
@@ -1060,7 +1064,7 @@ def run(tier, replay=None):
     try:
         if replay:
             stored = common.load_replay(replay)["case"]
-            case = stored.get("full", stored)
+            case = stored.get("full") or stored.get("record", {}).get("ctx", {}).get("full") or stored
             if "m" not in case:
                 print(json.dumps(stored, indent=1)[:4000])
                 print("trace-record replay: re-run ./check C16 quick with the same VERIF_SEED")
